@@ -25,7 +25,7 @@ EXTRA = {
  "X10": dict(
   title="every offspring of every species is produced by the branch of Species.reproduce that is enabled in the species' state, relates to its parents as that branch says, and every species produces exactly its quota",
   text="spec/Reproduce.tla (extends Genome.tla). Part 1, the branch protocol: per species quota, pool (survivors best first, pool[1] = champion), super-champion counter, cloneDone, made; per offspring the FIRST enabled branch: super-champion while counter > 0 (a duplicate of the champion, mutated once - link weights, or add-link when link adding is enabled - while counter > 1, the exact duplicate at counter = 1; counter decreases), champion clone once when quota > 5, mutate-only when the coin says so or the pool has one organism, otherwise mating (mom from the pool; dad from the pool or the champion of a species picked from the leading quarter of the sorted species list, up to five attempts to leave the own species; multipoint / multipoint-avg / single point by two coins; the child runs through the mutation chain when the coin exceeds MateOnlyProb, when mom and dad carry one genome id or when their compatibility distance is 0). Probabilities enter as classes never / always / sometimes, so that options at 0 and 1 make branches mandatory or impossible. The mutation chain is the decision tree of the code (add-node, else add-link, else connect-sensors; an add-node / add-link ATTEMPT counts as structural, connect-sensors only when it added a link; otherwise the six parametric mutators in fixed order behind their own coins). Part 2, relations: IsDuplicate (C06), the C04 relations, AddNode / AddLink / ConnectSensors / Toggle / ReEnable statements and ParametricFrame (C05) plus frame conditions for what C05 leaves open (unsuccessful add-node may switch one gene off and nothing else, unsuccessful add-link changes nothing, random-trait one trait, link-trait / node-trait one reference, link-weights weights with mutation number = weight, toggle one flag off, re-enable flags on only). MC_Reproduce explores the protocol exhaustively (tokens for genomes; all species tables over the configured quotas / pools / counters, every sorted order, all 27 classes of the three branch probabilities): branch conditions exhaustive and exclusive, every species makes exactly its quota, a species with quota > 5 leaves an exact copy of its champion, at most one champion clone, super-champion babies come first and are exactly `counter` many with the exact copy last, parents are survivors, an interspecies dad is a champion of the leading quarter, a child of an organism with itself is mutated; `-coverage 1`: no action unexercised. Trace_Reproduce consumes the recorded events (init, epoch = prepared species table with every organism of the old generation, enter, branch, postmut, mut, baby, exit, after) and checks per line (a) enabledness in the specification's own state (counter, cloneDone, made advance with After), (b) the relation of the genome to the parents' genomes of the epoch table resp. to its state before the mutator, (c) bookkeeping: offspring index, generation stamp, no species before speciation, fitness 0, mateBaby / mutationStructBaby / population-champion-child marks, counter and flag after the offspring, no organism of the old generation changed (digests at every baby), babies returned = babies announced = quota, the new generation is exactly the announced babies.",
-  note="Quick: 20 scenarios (10 option presets incl. interspecies rate 0 / 0.05 .. 0.4 / 1, mutate-only 0 / 1, mate-only 0 / 1, stolen babies with aged species, delta coding, structural and parametric mutators at probability 0 and 1, single crossover methods) x population 5..40 x 6-12 epochs x 6 constructors / start genomes; thorough: 180 scenarios. Trace validation of seeded runs is not exhaustive; MC_Reproduce is exhaustive on the token model only. Non-vacuity is part of every run: 24 single-field corruptions / event deletions of a recorded trace must each be rejected (otherwise exit 2). Sequential executor only (the parallel executor re-creates the babies from bytes, so object identities end at the species boundary). The result of add-node / add-link is discarded by reproduce itself; success is derived from the genome. Clauses implied by a listed property keep its id (C01 C02 C04 C05 C06 C09 C10), all failed clauses are reported. Trusted: TLC, the projection (harness/cmd/vh_x10/proj.go, rec.go).",
+  note="Quick: 20 scenarios (10 option presets incl. interspecies rate 0 / 0.05 .. 0.4 / 1, mutate-only 0 / 1, mate-only 0 / 1, stolen babies with aged species, delta coding, structural and parametric mutators at probability 0 and 1, single crossover methods) x population 5..40 x 6-12 epochs x 6 constructors / start genomes; thorough: 180 scenarios. Trace validation of seeded runs is not exhaustive; MC_Reproduce is exhaustive on the token model only. Non-vacuity is part of every run: 31 single-field corruptions / event deletions of a recorded trace (every event kind) must each be rejected (otherwise exit 2). Sequential executor only (the parallel executor re-creates the babies from bytes, so object identities end at the species boundary). The result of add-node / add-link is discarded by reproduce itself; success is derived from the genome. Clauses implied by a listed property keep its id (C01 C02 C04 C05 C06 C09 C10), all failed clauses are reported. Trusted: TLC, the projection (harness/cmd/vh_x10/proj.go, rec.go).",
   technique=B1),
 }
 
@@ -255,19 +255,25 @@ def record_and_validate(ctx, idx, scs, sem):
 
 def model_check(ctx, sem, thorough):
     """MC_Reproduce with -coverage 1: the invariants hold and no action of the protocol is unexercised."""
-    with sem, sem:
-        cfg = "MC_Reproduce_thorough.cfg" if thorough else "MC_Reproduce.cfg"
-        mc = ctx.tlc("MC_Reproduce", cfg, workers=2 if not thorough else 4, timeout=3000, extra=["-coverage", "1"])
-    spec_must_hold(mc, "MC_Reproduce/" + cfg)
-    acts = {}
-    for m in re.finditer(r"^<(\w+) line \d+, col \d+ to line \d+, col \d+ of module MC_Reproduce>: (\d+):(\d+)", mc.output, re.M):
-        acts[m.group(1)] = int(m.group(3))
     want = ["ASuperExact", "ASuperMutated", "AChampionClone", "AMutateOnly", "AMateWithin", "AMateInter", "NextSpecies"]
-    dead = [a for a in want if acts.get(a, 0) == 0]
-    if dead:
-        raise Infra("MC_Reproduce: actions never taken (coverage): %s" % ", ".join(dead))
-    mc.output = ""
-    return {a: acts[a] for a in want}
+    acts = {}
+    # the five-species configuration (two eligible positions in the leading quarter) has quota 1 everywhere: the dead-action
+    # test applies to the main configuration
+    cfgs = [("MC_Reproduce_thorough.cfg", True), ("MC_Reproduce_five_thorough.cfg", False)] if thorough else [("MC_Reproduce.cfg", True)]
+    for cfg, need_all in cfgs:
+        with sem, sem:
+            mc = ctx.tlc("MC_Reproduce", cfg, workers=4 if thorough else 2, timeout=3000, extra=["-coverage", "1"])
+        spec_must_hold(mc, "MC_Reproduce/" + cfg)
+        got = {}
+        for m in re.finditer(r"^<(\w+) line \d+, col \d+ to line \d+, col \d+ of module MC_Reproduce>: (\d+):(\d+)", mc.output, re.M):
+            got[m.group(1)] = int(m.group(3))
+        dead = [a for a in want if got.get(a, 0) == 0]
+        if dead and need_all:
+            raise Infra("MC_Reproduce/%s: actions never taken (coverage): %s" % (cfg, ", ".join(dead)))
+        for a in want:
+            acts[a] = acts.get(a, 0) + got.get(a, 0)
+        mc.output = ""
+    return acts
 
 
 @pipeline("X10")
